@@ -110,6 +110,12 @@ class WidgetProtocol(Protocol):
         "get_scrollpos": PMethod(Int, params=["size", "focus"], defaults={"size": None, "focus": False}),
         "set_scrollpos": PMethod(None, params=["position"], mutates=True),
     }
+    # `w.base_widget` ("w without its decorations", Widget.base_widget / WidgetDecoration.base_widget): for a decorated
+    # child another individual than the child -- an unconstrained widget of the child's state version, whose
+    # `selectable()`, `keypress()`, ... are unrelated to the child's own (a WidgetDisable(Button) is unselectable, its
+    # base widget is selectable).  Code that asks the base widget where the statement speaks about the child
+    # (e.g. through the container shortcut `container[position]`) therefore fails its obligation.
+    attrs = {"base_widget": Opaque("Widget")}
     has = {"automove_cursor_on_scroll": False, "set_scrollpos": "uf", "get_scrollpos": "uf", "get_cursor_coords": "uf", "get_pref_col": "uf", "move_cursor_to_coords": "uf", "mouse_event": "uf", "keypress": True, "rows": True, "pack": True, "render": True, "selectable": True}
 
 
